@@ -298,9 +298,9 @@ def bounded_checks(tier, seed):
     d2 = json.loads(r2.stdout.strip().splitlines()[-1])
     pk = {"check": "package_sets", "tool": "directed + seeded random sets of top-level packages in one collection, real loader; loaded in several orders, the rest left to "
           "external alias resolution; resolve_aliases run twice, statement evaluated natively",
-          "bound": f"4 single-module packages, 5 directed cross-package chains/cycles x 5 load orders + {n_pk} random sets (1-3 statements per package over a 25-statement "
+          "bound": f"4 single-module packages, 9 directed cross-package chains/cycles (4 of them through wildcard imports) x 5 load orders + {n_pk} random sets (1-3 statements per package over a 25-statement "
                    "alphabet without wildcards) x 1 load order; external in (True, False, None) x implicit in (True, False)",
-          "cases": d2["cases"], "failing": len(d2["bad"]), "wall_s": round(time.time() - t1, 1), "violations": d2["bad"]}
+          "cases": d2["cases"], "failing": len(d2["bad"]), "wall_s": round(time.time() - t1, 1), "class_match": True, "violations": d2["bad"]}
     return [pk, {"check": "import_graphs", "tool": "exhaustive + seeded random generation of import graphs, real loader, statement evaluated natively",
              "bound": f"3 modules; all 1-statement-per-module graphs over an 24-statement alphabet + {n_random} random graphs with 1-3 statements per module",
              "cases": d["graphs"], "failing": len(d["bad"]), "wall_s": round(t1 - t0, 1), "class_match": True, "violations": d["bad"]}]
